@@ -9,6 +9,10 @@ for d in sorted(glob.glob(os.path.join(HERE, "seeded", "*"))):
     det = ", ".join(f"{c}: {'**yes**' if r['detected'] else 'NO'}" for c, r in v.get("checks", {}).items())
     if m.get("first_pass_detected") is False:
         det += " (after strengthening; first pass: no)"
+    rc = m.get("recheck") or {}
+    if rc.get("checks"):  # last regression run (tools/recheck_seeded.py): only the detecting checks are re-run
+        ok = all(x.get("detected") for x in rc["checks"].values())
+        det += f"; re-run at {rc.get('repo_commit')}: {'detected' if ok else 'MISSED ' + ','.join(c for c, x in rc['checks'].items() if not x.get('detected'))}"
     def cut(t, n):
         t = re.sub(r"\s+", " ", str(t)).replace("|", "/")
         return t if len(t) <= n else t[: n - 1] + "…"
